@@ -11,6 +11,7 @@ mod matrix;
 mod pool;
 mod prog;
 mod proof;
+mod rules;
 mod sched;
 mod store;
 mod val;
@@ -53,6 +54,7 @@ fn main() {
         "drive-vecindex" => vecindex::main(&args),
         "drive-vecops" => vecops::main(&args),
         "drive-proof" => proof::main(&args),
+        "drive-rules" => rules::main(&args),
         "drive-sched" => sched::main(&args),
         "drive-indexes" => indexes::main(&args),
         "crash-workload" => crash::workload(&args),
